@@ -48,6 +48,8 @@ type Contract struct {
 	Bounds   map[string]int
 	NoPanic  bool
 	Inline   bool
+	Trusted  bool // assumed, not verified (listed in the evidence as an assumption)
+	Iface    bool // contract of an interface method (hooks, external keepers)
 	DecAbs   bool
 	Foralls  map[string]smt.Sort // implicitly universally quantified identifiers
 	Lets     []letDecl
@@ -82,7 +84,22 @@ type SpecSet struct {
 	Contracts []*Contract
 	Defines   map[string]*Define
 	Aggs      []*AggSpec
+	RowInvs   []*RowInv
 	Files     []string
+}
+
+// RowInv is an invariant of every row of a table: assumed of rows read from the unknown
+// initial contents (and of rows havocked by a callee's contract), proved at every write.
+type RowInv struct {
+	Name    string
+	Table   string
+	RowType string
+	Expr    *Spec
+	PkgPath string
+	File    string
+	Line    int
+	rowT    types.Type
+	pkg     *types.Package
 }
 
 var implRe = regexp.MustCompile(`==>`)
@@ -280,6 +297,26 @@ func (ss *SpecSet) directive(cur **Contract, pkgPath, file string, ln int, body 
 			return fail(err)
 		}
 		(*cur).Bounds[f[0]] = n
+	case "iface":
+		c := &Contract{Key: strings.ReplaceAll(rest, " ", ""), PkgPath: pkgPath, File: file, Line: ln, Bounds: map[string]int{}, Foralls: map[string]smt.Sort{}, Iface: true, Trusted: true}
+		ss.Contracts = append(ss.Contracts, c)
+		*cur = c
+	case "rowinv":
+		// rowinv <name> table <id> row <pkg.Type> : <expr>
+		f := strings.Fields(rest)
+		i := strings.Index(rest, " : ")
+		if len(f) < 6 || f[1] != "table" || f[3] != "row" || i < 0 {
+			return fail(fmt.Errorf("rowinv <name> table <id> row <type> : <expr>"))
+		}
+		sp, err := parseSpec(strings.TrimSpace(rest[i+3:]))
+		if err != nil {
+			return fail(err)
+		}
+		ss.RowInvs = append(ss.RowInvs, &RowInv{Name: f[0], Table: f[2], RowType: f[4], Expr: sp, PkgPath: pkgPath, File: file, Line: ln})
+	case "trusted":
+		if *cur != nil {
+			(*cur).Trusted = true
+		}
 	case "nopanic":
 		(*cur).NoPanic = true
 	case "inline":
@@ -351,7 +388,7 @@ func (ss *SpecSet) directive(cur **Contract, pkgPath, file string, ln int, body 
 		}
 		a.Value = e
 		ss.Aggs = append(ss.Aggs, a)
-	case "trusted", "note":
+	case "note":
 		// free-text documentation lines
 	default:
 		return fail(fmt.Errorf("unknown directive %q", word))
@@ -386,6 +423,9 @@ func (ss *SpecSet) Bind(prog *ssa.Program) (map[*ssa.Function]*Contract, []strin
 		byPkg[p.Pkg.Path()] = p
 	}
 	for _, c := range ss.Contracts {
+		if c.Iface {
+			continue
+		}
 		p := byPkg[c.PkgPath]
 		if p == nil {
 			unbound = append(unbound, c.PkgPath+" "+c.Key+" (package not loaded)")
